@@ -46,16 +46,20 @@ sys.path.insert(0, str(common.VERIF / "tools"))
 import gen_periodic  # noqa: E402  (read-only use of C01's / C17's translators)
 import gen_radii  # noqa: E402
 
+import c18_src  # noqa: E402  (translator: util/misc.py + molutil/connectivity.py -> Gen/MeasureSrc.lean)
+
 PROPERTY = "C18"
 LEAN_TARGETS = [
     "QcelVerif.Props.C18", "QcelVerif.Driver.C18",
     "QcelVerif.Lemmas.MeasureReal", "QcelVerif.Props.C18Real", "QcelVerif.Props.C18Euclid",
     "QcelVerif.Model.MeasureRadii", "QcelVerif.Lemmas.MeasureRadii", "QcelVerif.Props.C18Radii", "QcelVerif.Driver.C18Radii",
+    "QcelVerif.Model.MeasureAst", "QcelVerif.Gen.MeasureSrc", "QcelVerif.Model.MeasureSrc", "QcelVerif.Props.C18Src",
 ]
 DRIVER = "QcelVerif/Driver/C18.lean"
 DRIVER_RADII = "QcelVerif/Driver/C18Radii.lean"
 # Gen/Radii.lean and Gen/PT.lean are rewritten from QCEL_REPO's data files before every build
-TRANSLATORS = [gen_periodic.main, gen_radii.main]
+# Gen/MeasureSrc.lean is rewritten from QCEL_REPO's util/misc.py and molutil/connectivity.py (by `ast`) before every build
+TRANSLATORS = [gen_periodic.main, gen_radii.main, c18_src.gen_measure_src]
 THEOREMS = [
     ("QcelVerif.Measure.dist_rigid_invariant", "squared distance is unchanged by p -> R p + t for every orthogonal R (R R^T = I), any translation"),
     ("QcelVerif.Measure.angle_args_rigid_invariant", "the (dot, norm-product) pair feeding arccos is unchanged by every orthogonal motion"),
@@ -110,12 +114,41 @@ THEOREMS = [
     ("QcelVerif.Measure.connRadius_spec", "ANY tables: the radius used for a symbol is 1.8 if nothing identifies it (except branch), 1.8 if identified without tabulated radius (missing=1.8), else fl(factor * float(tabulated decimal)) in bohr; a failing unit conversion escapes"),
     ("QcelVerif.Measure.connectivity_sym_exact", "from symbols: (i, j) listed <-> i < j, both rows exist, 0 < (r(si)+r(sj))*thr and d2 < ((r(si)+r(sj))*thr)^2, r = the radius look-up"),
     ("QcelVerif.Measure.connectivity_sym_rigid_invariant", "from symbols: the result (including whether a look-up raises) is unchanged by every orthogonal motion of the geometry"),
+    # ---- the formulas REGENERATED FROM THE SOURCE by harness/c18_src.py (Gen/MeasureSrc.lean) are the hand model's (Props/C18Src.lean)
+    ("QcelVerif.MeasureSrc.srcDistance_eq", "any ordered field, ANY function standing for np.sqrt: the term regenerated from compute_distance (with _norm inlined from its source) evaluates to sqrt(distSq p q) of the hand model"),
+    ("QcelVerif.MeasureSrc.srcAngle_eq", "any ordered field, ANY sqrt/arccos/pi/degrees: the term regenerated from compute_angle evaluates to pi - arccos(angleCos(sqrt|v12|^2, sqrt|v23|^2)) with the hand model's code-shaped angleCos (np.clip(.,-1,1) included), passed through degrees iff the flag is set"),
+    ("QcelVerif.MeasureSrc.srcDihedral_eq", "any ordered field, ANY sqrt/arctan2/degrees: the term regenerated from compute_dihedral evaluates to arctan2(y, x) with (x, y) = the hand model's dihedralXY at n = sqrt|p3-p2|^2, passed through degrees iff the flag is set"),
+    ("QcelVerif.MeasureSrc.srcDistR_eq_distR", "over R with Real.sqrt: source-derived compute_distance = distR of Props/C18Real.lean, all inputs"),
+    ("QcelVerif.MeasureSrc.srcAngleR_eq_angleR", "over R with Real.sqrt / Real.arccos / Real.pi: source-derived compute_angle(degrees=False) = angleR, all inputs"),
+    ("QcelVerif.MeasureSrc.srcDihedralR_eq_dihedralR", "over R with Real.sqrt / atan2 = Complex.arg: source-derived compute_dihedral(degrees=False) = dihedralR, all inputs"),
+    ("QcelVerif.MeasureSrc.src_degrees_eq", "the degrees=True branch of the source-derived angle / dihedral is angleDegR / dihedralDegR = degrees(radian value)"),
+    ("QcelVerif.MeasureSrc.src_exactDist", "the exact evaluator the driver runs (argument of the source's sqrt) on the regenerated compute_distance = some(distSq p q), all inputs, any ordered field"),
+    ("QcelVerif.MeasureSrc.src_exactAngle", "the exact evaluator on the regenerated compute_angle (numerator and radicand product of the clipped arccos argument) = some(angleArgs p1 p2 p3), all inputs"),
+    ("QcelVerif.MeasureSrc.src_exactDihedral_partial", "PARTIAL (p2 != p3): the regenerated compute_dihedral's x, y evaluated exactly in K(sqrt N) are XN/N and (Y/N) sqrt N: the exact evaluator = some(dihedralArgs); the degenerate central bond is not covered"),
+    ("QcelVerif.MeasureSrc.exactTest_connSpec", "the root-free form of the regenerated test `sqrt(d2) < (r_x + r_j) * threshold` is defined on every pair and equals the hand model's bonded"),
+    ("QcelVerif.MeasureSrc.srcConnExactDefined_true", "the driver's definedness guard for the regenerated pair loop is true for every atom list"),
+    ("QcelVerif.MeasureSrc.srcConnExact_eq_guessConnectivity", "the pair loop regenerated from guess_connectivity (range bound, slice offsets x+1, index shift, `<`, cutoff expression, pair order) with the exact test = guessConnectivity thr atoms for EVERY atom list, any ordered field"),
+    ("QcelVerif.MeasureSrc.srcConnR_eq_guessConnectivity", "over R with the real square root and the source's own comparison: the regenerated pair loop = guessConnectivity thr atoms for every atom list"),
+    ("QcelVerif.MeasureSrc.src_rigid_invariant", "source-derived distance, angle, dihedral (either degrees flag) are unchanged by every proper rigid motion"),
+    ("QcelVerif.MeasureSrc.src_ranges", "source-derived distance >= 0, angle in [0, pi] / [0, 180], dihedral in (-pi, pi] / (-180, 180], all inputs of the real model"),
+    ("QcelVerif.MeasureSrc.src_dihedral_reflection", "under an improper orthogonal map the source-derived distance and angle are unchanged and the dihedral is negated (the edge value pi stays pi)"),
+    ("QcelVerif.MeasureSrc.src_reversal", "source-derived distance, angle, dihedral are unchanged when the points are listed backwards (either degrees flag)"),
+    ("QcelVerif.MeasureSrc.src_degrees_factor", "source-derived degrees=True value = degrees=False value * 180/pi (angle and dihedral)"),
+    ("QcelVerif.MeasureSrc.src_textbook", "non-degenerate input: source-derived distance = sqrt(dx^2+dy^2+dz^2), angle = arccos of the normalised bond-vector dot product, dihedral = the IUPAC signed angle in atan2 form"),
+    ("QcelVerif.MeasureSrc.src_connectivity_exact", "(i, j) in the source-derived bond list <-> i < j, both atoms exist, 0 < (ri+rj)*thr and d2 < ((ri+rj)*thr)^2"),
+    ("QcelVerif.MeasureSrc.src_connectivity_rigid_invariant", "the source-derived bond list is unchanged by every orthogonal motion of the geometry"),
+    ("QcelVerif.MeasureSrc.src_connectivity_relabel", "under an injective relabelling sigma of the atoms the source-derived bonds correspond, re-sorted within the pair"),
 ]
 TRUSTED_BASE = [
     "Lean 4.33 kernel + Mathlib (ring/linear_combination/field_simp; over R additionally Real.sqrt, Real.arccos, Complex.arg and their Mathlib theory); axioms per theorem audited on every run",
-    "hand-written model Model/Measure.lean of util/misc.py:10-19,137-320 and molutil/connectivity.py:44-62, and Model/MeasureRadii.lean of connectivity.py:37-42, tied by differential correspondence on the generated stream",
-    "the real-valued measurements distR / angleR / dihedralR / degrees of Props/C18Real.lean are hand-written transcriptions of the last lines of compute_distance / compute_angle / compute_dihedral "
-    "(np.sqrt -> Real.sqrt, np.arccos -> Real.arccos, np.clip -> min/max, np.arctan2(y, x) -> Complex.arg (x + y i), np.degrees -> * 180/pi, np.pi -> Real.pi)",
+    "REGENERATED FROM SOURCE: the row formulas of compute_distance / compute_angle / compute_dihedral (with the helper _norm inlined from its own source) and the pair loop of guess_connectivity "
+    "(connectivity.py:47-57: range bound, slice offsets, np.sqrt(.., out=..), comparison operator, cutoff expression, index shift, pair order) are re-read from util/misc.py / molutil/connectivity.py by `ast` on every run "
+    "(harness/c18_src.py -> Gen/MeasureSrc.lean, terms of the AST of Model/MeasureAst.lean; anything outside the recognised fragment makes the translator fail and the check with it); Props/C18Src.lean proves for all inputs that these terms, "
+    "evaluated over any ordered field with arbitrary functions for the numpy transcendentals, are the hand model's distSq / angleCos / dihedralXY / bonded / guessConnectivity, and over R are distR / angleR / dihedralR / degrees. "
+    "TRUSTED here: the translator's reading of numpy — that on (n,3) arrays `-`,`+`, scalar `*`, `s[:, None] * v`, `v / s[:, None]`, np.cross, np.einsum('ij,ij->i'), np.linalg.norm(axis=1), np.clip, np.where(a < b)[0], open slices a[x+k:] and in-place np.sqrt(out=) "
+    "act row by row as the AST evaluators say (Model/MeasureAst.lean evalS / evalV / srcConn) — and the mapping np.sqrt -> Real.sqrt, np.arccos -> Real.arccos, np.clip -> min/max, np.arctan2(y, x) -> Complex.arg (x + y i), np.degrees -> * 180/pi, np.pi -> Real.pi",
+    "still hand-written and tied by differential correspondence only: the handling of the leading axis (np.atleast_2d un-wrapping, broadcasting 1 row against n: bcast / zipWith of Model/Measure.lean; the translator only checks that every point parameter is first passed through np.atleast_2d), "
+    "distance_matrix (misc.py:10-19), measure_coordinates (misc.py:147-187: index validation, dispatch on the number of indices, val[0]), the default_connectivity tail of guess_connectivity (connectivity.py:59-60), and Model/MeasureRadii.lean of connectivity.py:37-42",
     "libm / numpy floating point: that np.sqrt, np.arccos, np.arctan2, np.degrees, np.pi and the elementwise float +,-,*,/ approximate those real functions is NOT proved; "
     "it is checked at run time by evaluating the proved closed forms (sqrt d2; atan2(sqrt(nn-dot^2), -dot); atan2(Y sqrt N, XN)) in Python (math.sqrt / math.atan2, i.e. libm again) on the model's exact rational arguments and comparing with the implementation at 1e-9",
     "IEEE signed zero, NaN and infinities are outside the real-number model: np.arctan2(-0.0, x<0) = -pi where the real atan2 gives +pi (same geometric angle; the oracle compares dihedrals modulo 2 pi and demands the closed range [-pi, pi]); x/0 is 0 in Lean and nan in numpy (degenerate inputs, outside the quantifier)",
@@ -126,16 +159,17 @@ TRUSTED_BASE = [
     "1.8 bohr where it has none — connectivity.py:39,41), the element of a nuclide / oddly cased label taken from periodictable.to_E in the harness process (C01's territory, a parameter) and the "
     "angstrom -> bohr factor from constants (C03's, a parameter); they are compared exactly with the radius model on the regenerated tables (RAD line) and with covalentradii.get(s, missing=1.8) in the harness process",
     "harness/c18_worker.py (executes a sequence in a fresh interpreter and snapshots arguments / results; judges nothing)",
-    "harness/c18.py generators and the Python oracle",
+    "harness/c18.py generators and the Python oracle; harness/c18_src.py (the translator)",
 ]
 ASSUMPTIONS = [
     "points are non-degenerate as the quantifier says: pairwise distance >= 0.1 (and, in ~15% of the single and batched measurement cases, the same shapes shrunk by 2^-10 / 2^-17 / 2^-24 towards their first point, or with one arm shrunk: arm lengths down to ~1e-7, never coincident), and for 'general position' cases sin^2 of every bond angle that defines a plane >= 1e-4 (a separate exactly-collinear stream checks angle in {0, pi} at 1e-6)",
     "the theorems over R that state textbook agreement carry exactly these non-degeneracy hypotheses (p1 != p2, p3 != p2 for the angle; p2 != p3, resp. no collinear triple, for the dihedral); range, invariance and reversal theorems hold for all inputs of the real model, "
     "which on degenerate inputs (division by zero) is NOT the implementation (Lean x/0 = 0, numpy nan)",
     "the real model has no signed zero: on the exactly planar trans arrangement the implementation may return -pi (through -0.0) where dihedralR = +pi; dihedrals are therefore compared modulo 2 pi and the range demanded of the implementation is the stated closed [-pi, pi]",
-    "bond pairs whose distance is within 1e-9 of (ri+rj)*thr are excluded from generation (the probe stream sits 4e-9 .. 1e-4 from the cutoff on either side); thresholds are positive",
+    "bond pairs whose distance is within 1e-9 of (ri+rj)*thr are excluded from generation (the probe stream sits 4e-9 .. 1e-4 from the cutoff on either side), except three fixed tasks whose pair sits EXACTLY at the cutoff with every float operation exact (must not be bonded: `closer than` is strict); thresholds are positive",
     "symbols and geometry have equal length; inputs are finite doubles; indices are Python ints; symbols are ASCII str (element symbols in any case, nuclide labels, exact table labels such as C_sp3, unknown strings)",
     "batched inputs have >= 1 row; mixed scalar/batched shapes follow numpy broadcasting (rows 1 vs n)",
+    "source-derived exact part of the dihedral: proved equal to the hand model's (XN, Y, N) for p2 != p3 only (src_exactDihedral_partial); on the degenerate central bond (outside the quantifier) the two are only compared by the driver",
     "layout stream: arguments are float64 ndarrays (any strides, possibly aliasing each other, possibly read-only) or nested lists; distance_matrix entries between "
     "two views of the very same buffer row (coincident points, outside the quantifier) are compared with the model only, never demanded by the oracle",
     "seq stream: the history consists of calls to the public API only (covalentradii.get / vdwradii.get / periodictable.to_* with any options, including calls that end in the documented exceptions; guess_connectivity; "
@@ -166,6 +200,8 @@ RULE = (
     "distance_matrix, measure_coordinates, Molecule.measure, repeated on the same objects with the other degrees flag. Every guess_connectivity / measurement step is judged: exact bond set from the data-file radii, textbook values at 1e-9, "
     "arguments equal to their pre-call snapshot, lists / arrays returned by earlier steps still equal to what was returned unless the caller edited them; every guess_connectivity step is also compared with both drivers. A failing sequence is cut after the failing call and ddmin-shrunk over its history (each trial a fresh interpreter). "
     "In-process conn tasks additionally check that the geometry / symbols objects are unchanged by the call and that covalentradii.get(s, missing=1.8) equals the data-file radius.) "
+    "THREE-WAY: every D / A / H / BD / BA / BH / C driver line of every stream is answered by the hand model AND by the exact evaluators run on the terms regenerated from the source (exact rational arithmetic; the dihedral's x, y in Q(sqrt N)); "
+    "any difference is a mismatch (distribution key three_way_lines). "
     "A case is distinct by its full input; non-trivial when points are in general position (no coordinate plane symmetry) or an error/bond "
     "branch is hit, and for layout cases when arguments share memory or the carrier is not a fresh writable C array."
 )
@@ -174,13 +210,15 @@ LEVEL_TEXT = (
     "inputs about the algebraic arguments; over R (Mathlib sqrt / arccos / Complex.arg) the measurements as coded are proved to lie in [0, inf), [0, pi], (-pi, pi] "
     "(degrees: * 180/pi, [0, 180], (-180, 180]), to be invariant under every proper rigid motion, to flip sign under reflection (exactly off the dihedral = pi edge, "
     "modulo 2 pi everywhere), to be unchanged by listing the points backwards and to equal the textbook definitions (arccos of the normalised dot product; the unique "
-    "angle in (-pi, pi] with the IUPAC cosine and sine) for non-degenerate inputs. Partial because: the model is tied to the code by sampled correspondence; libm / IEEE "
+    "angle in (-pi, pi] with the IUPAC cosine and sine) for non-degenerate inputs. The row formulas of compute_distance / compute_angle / compute_dihedral and the pair loop of guess_connectivity are no longer hand transcriptions only: "
+    "they are regenerated from the source text on every run and proved, for all inputs, to be the hand model's (Props/C18Src.lean), and all headline clauses are restated over the source-derived functions. "
+    "Partial because: the translator's reading of numpy's row-wise semantics is trusted (and sampled three-way on every driver line); leading-axis handling, distance_matrix, measure_coordinates and default_connectivity are still tied by sampled correspondence only; libm / IEEE "
     "rounding of sqrt / arccos / arctan2 / degrees and of the float arithmetic in front of them is run-time only (differential, 1e-9); signed zero and nan are outside the real model. "
     "Covalent radii are no longer taken from the implementation: they are regenerated from the source data files and checked against the implementation exactly. "
     "The model is a pure function of the arguments; that the implementation is one too (no dependence on earlier calls in the process, on objects handed out earlier, on argument objects being reused) is sampled only: "
     "call sequences in fresh interpreters, judged against values computed from the arguments alone."
 )
-TECHNIQUE = "Lean 4 proof over generic commutative rings / ordered fields, lifted over R through Mathlib's sqrt / arccos / arg + exact-rational differential correspondence + regenerated radius tables"
+TECHNIQUE = "Lean 4 proof over generic commutative rings / ordered fields, lifted over R through Mathlib's sqrt / arccos / arg + formulas regenerated from the source by an ast translator and proved equal to the hand model + exact-rational three-way differential correspondence + regenerated radius tables"
 
 TOL = 1e-9
 TOL_COLLINEAR = 1e-6
@@ -316,7 +354,10 @@ def ev_dihedral(xn: Fr, y: Fr, n: Fr) -> float:
 def sin2(a, b):
     """sin^2 of the angle between exact vectors a, b"""
     c = cross(a, b)
-    return dot(c, c) / (dot(a, a) * dot(b, b))
+    den = dot(a, a) * dot(b, b)
+    if den == 0:  # a zero-length arm (coincident points): not in general position — the generators reject and resample
+        return Fr(0)
+    return dot(c, c) / den
 
 
 # --------------------------------------------------------------------------------------
@@ -2306,6 +2347,11 @@ def fixed_tasks():
     T.append({"kind": "layout", "fn": "dihedral", "mode": "windows", "buf": chain, "carrier": "C", "readonly": False, "degrees": True,
               "args": [["v", 0, 4, 1], ["v", 1, 5, 1], ["v", 2, 6, 1], ["v", 3, 7, 1]]})
     T.append({"kind": "conn", "symbols": ["O", "H", "H"], "geom": hexpts([[0, 0, -0.12], [0, -1.43, 0.98], [0, 1.43, 0.98]]), "thr": 1.2, "default_thr": True, "dc": None, "motion": ident, "perm": [2, 0, 1], "flat": True})
+    # "closer than" is strict: a pair EXACTLY at its cutoff is not bonded.  Two unknown symbols (radius 1.8 bohr each, connectivity.py:39-41) on an axis at
+    # distance (1.8 + 1.8) * thr for thr in {1, 2, 1/2}: every float operation involved is exact (doubling, scaling by a power of two, sqrt(fl(x*x)) = x),
+    # so implementation, model and oracle all see d == cutoff exactly — the only inputs that tell `<` from `<=`.
+    for thr, d in ((1.0, 3.6), (2.0, 7.2), (0.5, 1.8)):
+        T.append({"kind": "conn", "symbols": ["Xx", "Xx", "Xx"], "geom": hexpts([[0.0, 0.0, 0.0], [d, 0.0, 0.0], [d, 40.0, 0.0]]), "thr": thr, "default_thr": False, "dc": None, "motion": ident, "perm": [1, 0, 2], "flat": False, "edge_exact": True})
     return T
 
 
@@ -2338,6 +2384,9 @@ def gen_tasks(ctx: Ctx):
 # --------------------------------------------------------------------------------------
 
 
+THREE_WAY_OPS = {"D", "A", "H", "BD", "BA", "BH", "C"}
+
+
 def evaluate(ctx: Ctx, tasks, out: Outcome):
     all_lines, spans = [], []
     all_lines2, spans2 = [], []
@@ -2357,8 +2406,17 @@ def evaluate(ctx: Ctx, tasks, out: Outcome):
         pool = ThreadPoolExecutor(max_workers=SEQ_PAR)
         futs = [(t, pool.submit(run_worker, t["steps"])) for t in seqs]
     model = model2 = None
+    src_diffs = {}
     if ctx.model_available:
-        model = ctx.run_model(DRIVER, all_lines)
+        model = list(ctx.run_model(DRIVER, all_lines))
+        # three-way: the driver answers D / A / H / BD / BA / BH / C lines twice (hand model; exact evaluators on the terms regenerated
+        # from the source) and prints `SRCDIFF <hand> ## <source-derived>` where they differ
+        for i, m in enumerate(model):
+            if m.startswith("SRCDIFF "):
+                hand, _, src = m[len("SRCDIFF "):].partition(" ## ")
+                src_diffs[i] = (hand, src)
+                model[i] = hand
+        out.count("three_way_lines", sum(1 for l in all_lines if l.split("|", 1)[0] in THREE_WAY_OPS))
         nbad = sum(1 for m in model if m == "bad-op")
         if nbad:
             out.mismatches.append(Finding("mismatch", {"task": None}, observed=f"{nbad} bad-op lines", detail="driver rejected generated lines"))
@@ -2377,6 +2435,11 @@ def evaluate(ctx: Ctx, tasks, out: Outcome):
         ml = model[a : a + k] if model is not None else None
         if ml is not None and any(m == "bad-op" for m in ml):
             ml = None
+        for i in range(a, a + k):
+            if i in src_diffs:
+                MM(out, t, "source-derived exact part (Gen/MeasureSrc.lean, regenerated from util/misc.py / molutil/connectivity.py) differs from the hand model on line "
+                   + all_lines[i][:160], observed=src_diffs[i][1][:300], expected=src_diffs[i][0][:300])
+                break
         if k2:
             ml2 = model2[a2 : a2 + k2] if model2 is not None else None
             if ml2 is not None and any(m == "bad-op" for m in ml2):
@@ -2393,7 +2456,7 @@ def run(ctx: Ctx) -> Outcome:
     tasks = gen_tasks(ctx)
     evaluate(ctx, tasks, out)
     out.exhaustive = False
-    out.notes.append("all streams sampled from VERIF_SEED; 7 hand-written regression tasks run first")
+    out.notes.append("all streams sampled from VERIF_SEED; 10 hand-written regression tasks run first")
     out.notes.append("seq stream: one fresh interpreter per sequence (harness/c18_worker.py); distribution keys seq:sequences, seq:steps, seq:step:<history op>:<ok|err|skip>, seq:conn_checked[:objects_reused], "
                      "seq:meas_checked:<fn>, seq:conn_bonds; findings oracle:sequence:connectivity / :measure / :argument_mutated / :result_changed / :raises carry the shrunk sequence (replayed in a fresh interpreter)")
     out.notes.append("layout stream: distribution keys layout:<fn>:<mode>, layout:carrier:<memory layout>[:readonly], layout:arguments_share_memory, "
